@@ -839,6 +839,11 @@ def check_parallel_stage_inputs(ctx: Ctx) -> None:
     from gv.props.c12 import _Prefixed
 
     c13.check_parallel_chain_inputs(_Prefixed(ctx, "8.7-stage-inputs/"))
+    # a chain forwards what each discipline returns: on a cache hit that must be the inputs the discipline was called
+    # with (rule 5.14 of C05), or the next discipline is evaluated at a stale value
+    from gv.props import c05
+
+    c05.check_hit_inputs(_Prefixed(ctx, "8.9-forwarded-data/"))
 
 
 def check_sub_structures_pairing(ctx: Ctx) -> None:
